@@ -1,6 +1,6 @@
 (* GENERATED ONCE by tools/pin.py from Properties/C05.v and committed: the pinned statements. *)
 From VF.Properties Require C05.
-From VF Require Import Base Gen_Errors Lexer Grammar Response Tree Tree_proofs HeaderSpec MessageSpec Message_proofs Message_proofs2.
+From VF Require Import Base Gen_Errors Lexer Grammar Response Tree Tree_proofs HeaderSpec MessageSpec Message_proofs Message_proofs2 MessageSpec3 Message_proofs3.
 Open Scope N_scope.
 
 Section C05_statements.
@@ -58,4 +58,54 @@ Goal forall (root : tree D) (m : msg) (w : list byte) (d : D) (f : fmt),
   run root (m_lead m ++ render_units (m_units m) ++ 59 :: w ++ (if m_nl m then [10] else [])) d f
   = Val (spec_message root m d f).
 Proof. apply VF.Properties.C05.C05_message_semantics_trailing_separator. Qed.
+Goal forall (root : tree D) lead us w bad d f,
+  wf_tree root -> wf_ws lead = true -> forallb Message_proofs.wf_uw us = true -> us <> [] -> wf_ws w = true ->
+  run root (lead ++ render_units us ++ 59 :: w ++ bad) d f =
+  match spec_prefix root root us d f [] with
+  | PErr e d' f' tr => Val (mkRun (Some e) d' (buf f') tr [e])
+  | POk ctx d' f' tr => run_from root ctx bad d' f' tr
+  end.
+Proof. apply VF.Properties.C05.C05_message_prefix_semantics. Qed.
+Goal forall (root ctx0 : tree D) lead us w bad d f tr0,
+  wf_tree root -> In ctx0 (all_subtrees root) ->
+  wf_ws lead = true -> forallb Message_proofs.wf_uw us = true -> us <> [] -> wf_ws w = true ->
+  run_from root ctx0 (lead ++ render_units us ++ 59 :: w ++ bad) d f tr0 =
+  match spec_prefix root ctx0 us d f tr0 with
+  | PErr e d' f' tr => Val (mkRun (Some e) d' (buf f') tr [e])
+  | POk ctx d' f' tr => run_from root ctx bad d' f' tr
+  end.
+Proof. apply VF.Properties.C05.C05_run_from_prefix_semantics. Qed.
+Goal forall (root : tree D) lead us w bad e rest d f,
+  wf_tree root -> wf_ws lead = true -> forallb Message_proofs.wf_uw us = true -> us <> [] -> wf_ws w = true ->
+  tokenize bad = Val (IErr e :: rest) ->
+  run root (lead ++ render_units us ++ 59 :: w ++ bad) d f =
+  match spec_prefix root root us d f [] with
+  | PErr e' d' f' tr => Val (mkRun (Some e') d' (buf f') tr [e'])
+  | POk ctx d' f' tr => Val (mkRun (Some (std_error e)) d' (buf f') tr [std_error e])
+  end.
+Proof. apply VF.Properties.C05.C05_bad_unit_aborts. Qed.
+Goal forall (root : tree D) lead us w bad d f r,
+  wf_tree root -> wf_ws lead = true -> forallb Message_proofs.wf_uw us = true -> us <> [] -> wf_ws w = true ->
+  run root (lead ++ render_units us ++ 59 :: w ++ bad) d f = Val r ->
+  exists tr_more,
+    r_trace r = (match spec_prefix root root us d f [] with PErr _ _ _ tr => tr | POk _ _ _ tr => tr end) ++ tr_more.
+Proof. apply VF.Properties.C05.C05_prefix_trace_preserved. Qed.
+Goal forall (root : tree D) lead us w bad1 bad2 d f e d' f' tr,
+  wf_tree root -> wf_ws lead = true -> forallb Message_proofs.wf_uw us = true -> us <> [] -> wf_ws w = true ->
+  spec_prefix root root us d f [] = PErr e d' f' tr ->
+  run root (lead ++ render_units us ++ 59 :: w ++ bad1) d f = run root (lead ++ render_units us ++ 59 :: w ++ bad2) d f.
+Proof. apply VF.Properties.C05.C05_failed_prefix_tail_irrelevant. Qed.
+Goal forall (root : tree D) lead us w bad d f r e d' f' tr,
+  wf_tree root -> wf_ws lead = true -> forallb Message_proofs.wf_uw us = true -> us <> [] -> wf_ws w = true ->
+  spec_prefix root root us d f [] = PErr e d' f' tr ->
+  run root (lead ++ render_units us ++ 59 :: w ++ bad) d f = Val r ->
+  r = mkRun (Some e) d' (buf f') tr [e].
+Proof. apply VF.Properties.C05.C05_failed_prefix_trace_exact. Qed.
+Goal forall (root ctx : tree D) us d f tr,
+  spec_units root ctx us d f tr =
+  match spec_prefix root ctx us d f tr with
+  | PErr e d' f' tr' => (d', f', tr', Some e)
+  | POk ctx' d' f' tr' => spec_units root ctx' [] d' f' tr'
+  end.
+Proof. apply VF.Properties.C05.C05_spec_units_prefix. Qed.
 End C05_statements.
